@@ -39,7 +39,8 @@ def install_pinverse():
         Bn, d, m = x.a.shape
         out = np.empty((Bn, m, d), dtype=object)
         for b in range(Bn):
-            key = 'P[' + ';'.join(repr(Poly.lift(e)) for e in x.a[b].reshape(-1)) + ']'
+            import hashlib
+            key = 'P[' + hashlib.md5(repr(tuple(Poly.lift(e).key() for e in x.a[b].reshape(-1))).encode()).hexdigest()[:10] + ']'
             for i in range(m):
                 for j in range(d):
                     out[b, i, j] = Poly.var(f'{key}_{i}{j}')
